@@ -586,16 +586,22 @@ read_notes(kdump_ctx_t *ctx, off_t off, size_t size)
  */
 static kdump_status
 read_bitmap(kdump_ctx_t *ctx, struct pfn_file_map *pdmap,
-	    int32_t sub_hdr_size, int32_t bitmap_blocks)
+	    int32_t sub_hdr_size, uint32_t bitmap_blocks)
 {
 	struct disk_dump_priv *ddp = ctx->shared->fmtdata;
-	off_t off = (1 + sub_hdr_size) * get_page_size(ctx);
+	off_t off;
 	off_t descoff;
 	size_t bitmapsize;
 	kdump_pfn_t max_bitmap_pfn;
 	struct fcache_chunk fch;
 	kdump_status ret;
 
+	if (sub_hdr_size < 0)
+		return set_error(ctx, KDUMP_ERR_CORRUPT,
+				 "Invalid sub-header size: %ld",
+				 (long) sub_hdr_size);
+
+	off = ((off_t)1 + sub_hdr_size) * get_page_size(ctx);
 	if (pdmap->fidx == 0)
 		ddp->mem_pagemap_off = off;
 	descoff = off + bitmap_blocks * get_page_size(ctx);
